@@ -102,6 +102,8 @@ type FnCtx struct {
 	curPos string
 	errs []string
 	nocover bool
+	elemRange map[string]string
+	nameCount map[string]int
 }
 
 func (c *FnCtx) fresh(prefix, srt string) string {
@@ -134,6 +136,13 @@ func isAtom(t string) bool {
 }
 
 func (c *FnCtx) oblige(kind, name, guard, goal, src string) *Obl {
+	if c.nameCount == nil {
+		c.nameCount = map[string]int{}
+	}
+	c.nameCount[name]++
+	if n := c.nameCount[name]; n > 1 {
+		name = fmt.Sprintf("%s~%d", name, n)
+	}
 	o := &Obl{Name: name, Kind: kind, Func: c.fnName(), Guard: guard, Goal: goal, NFacts: len(c.facts), NDecls: len(c.decls), Expect: "unsat", Src: src, Pos: c.curPos, ctx: c}
 	c.obls = append(c.obls, o)
 	return o
@@ -349,6 +358,9 @@ func (c *FnCtx) regionDecl(name, srt string) {
 	}
 	c.regSort[name] = srt
 	c.decls = append(c.decls, fmt.Sprintf("(declare-const %s@0 %s)", name, srt))
+	if rf := c.elemRange[name]; rf != "" {
+		c.facts = append(c.facts, fmt.Sprintf(rf, name+"@0", name+"@0", name+"@0", name+"@0"))
+	}
 }
 
 func (c *FnCtx) get(st *State, region string) string {
@@ -366,7 +378,11 @@ func (c *FnCtx) set(st *State, region, term string) {
 }
 
 func (c *FnCtx) havoc(st *State, region string) {
-	st.ver[region] = c.fresh(region, c.regSort[region])
+	n := c.fresh(region, c.regSort[region])
+	st.ver[region] = n
+	if rf := c.elemRange[region]; rf != "" {
+		c.facts = append(c.facts, fmt.Sprintf(rf, n, n, n, n))
+	}
 }
 
 func (c *FnCtx) fieldRegion(structT types.Type, idx int) (string, types.Type) {
@@ -381,6 +397,15 @@ func (c *FnCtx) fieldRegion(structT types.Type, idx int) (string, types.Type) {
 func (c *FnCtx) elemRegion(elemT types.Type) string {
 	name := "A_" + typeKey(elemT)
 	srt := fmt.Sprintf("(Array Int (Array Int %s))", c.sortOf(elemT))
+	if c.elemRange == nil {
+		c.elemRange = map[string]string{}
+	}
+	if _, seen := c.regSort[name]; !seen && c.sortOf(elemT) == SInt {
+		if lo, hi, ok := intRange(elemT); ok {
+			// type invariant of every element of every array of this element type
+			c.elemRange[name] = "(forall ((q_r Int) (q_j Int)) (! (and (<= " + lo + " (select (select %s q_r) q_j)) (<= (select (select %s q_r) q_j) " + hi + ")) :pattern ((select (select %s q_r) q_j))))%.0s"
+		}
+	}
 	c.regionDecl(name, srt)
 	return name
 }
@@ -461,8 +486,10 @@ func (c *FnCtx) loadPtr(st *State, p Term, pointee types.Type) Term {
 func (c *FnCtx) loadField(st *State, ref string, structT types.Type, i int) Term {
 	su := structT.Underlying().(*types.Struct)
 	ft := su.Field(i).Type()
-	if _, isStruct := ft.Underlying().(*types.Struct); isStruct {
-		// by-value nested struct: stored in a region as a datatype value
+	switch ft.Underlying().(type) {
+	case *types.Struct, *types.Array:
+		// by-value nested aggregate: lives at a derived reference
+		return c.loadPtr(st, Term{S: subRef(ref, i), Sort: SInt}, ft)
 	}
 	r, _ := c.fieldRegion(structT, i)
 	return Term{S: fmt.Sprintf("(select %s %s)", c.get(st, r), ref), Sort: c.sortOf(ft), T: ft}
@@ -479,9 +506,14 @@ func (c *FnCtx) storePtr(st *State, p Term, pointee types.Type, v Term) {
 		}
 		srt := c.structSort(pointee, u)
 		for i := 0; i < u.NumFields(); i++ {
-			r, ft := c.fieldRegion(pointee, i)
+			ft := u.Field(i).Type()
 			fv := fmt.Sprintf("(%s_%s %s)", srt, sanitize(u.Field(i).Name()), v.S)
-			_ = ft
+			switch ft.Underlying().(type) {
+			case *types.Struct, *types.Array:
+				c.storePtr(st, Term{S: subRef(p.S, i), Sort: SInt}, ft, Term{S: fv, Sort: c.sortOf(ft), T: ft})
+				continue
+			}
+			r, _ := c.fieldRegion(pointee, i)
 			c.set(st, r, fmt.Sprintf("(store %s %s %s)", c.get(st, r), p.S, fv))
 		}
 	case *types.Array:
